@@ -929,6 +929,25 @@ func (ev *cenv) call(e *CExpr) *Val {
 			sub := *ev
 			sub.heap = E.snaps[n]
 			return sub.eval(args[0])
+		case "athead":
+			// athead(e): e evaluated with the locals and the heap as they were at the head of the
+			// current iteration of the loop whose `each` clause is being checked
+			if ev.st == nil || ev.st.headEnv == nil {
+				ev.fail("athead() outside a loop body clause")
+			}
+			var lo int
+			fmt.Sscanf(ev.st.ghost["curloop"], "%d", &lo)
+			he, ok := ev.st.headEnv[lo]
+			if !ok {
+				ev.fail("athead(): no loop head snapshot")
+			}
+			sub := *ev
+			nst := *ev.st
+			nst.env = he
+			sub.st = &nst
+			sub.heap = ev.st.headHeap[lo]
+			sub.loopMode = true
+			return sub.eval(args[0])
 		case "atunlock":
 			// the state right before the most recent lock release on this path
 			if ev.st == nil || ev.st.ghost["lastunlock"] == "" {
